@@ -354,6 +354,15 @@ func boundaryText(d int, tok string) string {
 	return strings.Repeat(" ", 128*1024-k) + tok
 }
 
+// windowLen: lengths 128 KiB-3 .. 128 KiB+2 for d = 10, 10^2, ...
+func windowLen(d int) int {
+	k := 0
+	for x := d; x >= 10; x /= 10 {
+		k++
+	}
+	return 128*1024 - 4 + k
+}
+
 type evalGen struct {
 	name string
 	prog func(d int) string
@@ -382,6 +391,11 @@ var evalGens = []evalGen{
 	{"text-buffer-boundary-symbol", func(d int) string { return boundaryText(d, "(quote some-long-symbol-name)") }},
 	{"text-buffer-boundary-rawstring", func(d int) string { return boundaryText(d, `"""raw "" string""" 1`) }},
 	{"text-buffer-boundary-badutf8", func(d int) string { return boundaryText(d, "ab\xffcd") }},
+	// tokens about as long as the production scanner's 128 KiB window (since
+	// 63e1616 an over-long token is an error instead of being split)
+	{"text-window-sized-symbol", func(d int) string { return strings.Repeat("a", windowLen(d)) }},
+	{"text-window-sized-string", func(d int) string { return `"` + strings.Repeat("a", windowLen(d)) + `"` }},
+	{"text-window-sized-comment", func(d int) string { return ";" + strings.Repeat("c", windowLen(d)) + "\n1" }},
 	{"text-let-nest", func(d int) string { return nestText("(let ((x 1)) ", ")", "x", d) }},
 	{"text-lambda-nest", func(d int) string { return nestText("((lambda (x) ", ") 1)", "x", d) }},
 	{"text-quasiquote-nest", func(d int) string { return nestText("(quasiquote ", ")", "x", d) }},
